@@ -371,3 +371,39 @@ CONFIG['C01'] = _resize_cfg(
      "compared bit for bit with the model's mirror, which evaluates the documented formulas",
      "I32 / F32 accumulation error bounds are not proved in Lean (exact agreement with the model on the portable back-end is checked)"],
     "Lean 4 theorems over the fixed-point pass arithmetic (integers + rationals) + bit-exact executable mirror with differential correspondence")
+
+CONFIG['C02'] = _resize_cfg(
+    "(a) single convolution passes through the crate-private Convolution trait (hook wrappers) with synthetic coefficient sets: 13 pixel "
+    "types x {horizontal, vertical} x kernel lengths 1..26 (every residue mod 8) and 40..520 taps x destination widths 1..35 (every residue "
+    "of width*channels mod 32) x heights (every residue mod 4) x offsets 0..2 x weight styles (non-negative, negative lobes, strong "
+    "alternation, tiny weights: precisions 13..21 all reached inside the head-room) x back-ends none / sse4 / avx2; (b) whole resizes on "
+    "SSE4.1 and AVX2 against the portable back-end (all types, algorithms, crops, alpha on/off); (c) alpha multiply / divide images (C06's "
+    "generator). Oracle: integer formats byte-identical to the portable back-end (16-bit alpha division one unit), f32 within a few ulps.",
+    "Machine-checked proof (Lean 4): any chunking / re-association of an integer dot product, with exact or wrapping accumulators, gives "
+    "the same sum; the SIMD finishing sequence srai -> packs_epi32 -> packus_epi16 equals the translated clip table for every 32-bit "
+    "accumulator and precision, and Normalizer32::clip equals the packus_epi32 clamp; madd_epi16 pair products are exact. The lane plumbing "
+    "is tied by correspondence over every remainder branch of every kernel.",
+    ["shuffle masks, lane placement and load widths are not modelled (correspondence only); NEON and WASM kernels cannot be executed here",
+     "float formats: tolerance of a re-associated f64 sum is applied by the oracle, the bound is not proved in Lean"],
+    "Lean 4 theorems over integer dot products and the translated clip functions + exhaustive-residue differential correspondence across back-ends")
+
+CONFIG['C03'] = _resize_cfg(
+    "malformed stream through the safe public API, executed in BOTH the debug-assertion profile (opt-level 1, overflow checks) and the "
+    "optimised profile, source and destination placed flush against inaccessible guard pages (mmap / mprotect): sizes 0 and 1, crop boxes "
+    "with NaN, +-inf, negative, -0.0, denormal, sub-ulp, edge-flush and oversized fields, fit-cropping with extreme centering, every "
+    "algorithm incl. SuperSampling multiplicities 0, 1, 2, 7, 100, 255, custom kernels (moderate and large negative lobes, ring kernel that "
+    "vanishes around 0, supports 0.01 .. 60, scale factors 1e-300 .. 1e300 and negative), all 13 pixel types, back-ends, typed / dynamic "
+    "entry, exact / oversized / strided / nested containers, fresh and reused resizers. Oracle: the outcome is Ok or a documented error, "
+    "never a panic (inside the documented head-room sum|w| < 4; outside it only crashes count) and never a crash; inside the head-room the "
+    "destination bytes are also compared with the model. The case being executed is recorded so that a crash is attributed to its input.",
+    "Machine-checked proof (Lean 4), float-oblivious and for all inputs: every coefficient window lies inside the source and its bound "
+    "arithmetic cannot underflow, for every zero-test (any kernel, NaN weights included); the temporary image of a two-pass resize "
+    "contains every shifted window; the clip-table index is inside the 1280-entry table and computed without overflow for every "
+    "accumulator and precision (translated code); every reachable precision has a dispatch arm (translated arm list); together with the "
+    "overflow-freedom theorems of C04, C06, C08, C17 and the in-bounds theorems of C09, C11. Outcome classes are compared with the real "
+    "code in two build profiles behind guard pages.",
+    ["SIMD load footprints are covered by guard pages in the correspondence, not by theorem; the allocator and rayon internals are outside",
+     "memory safety of the unsafe blocks is argued from the index theorems; the Rust code itself is not verified (no Rust semantics in Lean)",
+     "custom kernels are drawn from three parametric families that exist on both sides of the protocol"],
+    "Lean 4 theorems over a float-oblivious bounds model and translated index arithmetic + outcome-class correspondence in two profiles with guard pages")
+CONFIG['C03']['runs'] = [{'profile': 'verif-dbg'}, {'profile': 'verif-rel'}]
